@@ -16,7 +16,6 @@ import (
 	"os"
 	"path/filepath"
 	"runtime"
-	"runtime/debug"
 	"sort"
 	"strings"
 	"testing"
@@ -74,9 +73,9 @@ func (in *c05Interp) reset() {
 		in.path = ""
 	}
 	if hadBig {
-		// the v2 writer reserves 65 536 x 16 000 words of capacity; give it back before the next one
+		// the v2 writer reserves 65 536 x 16 000 words of capacity: collect it before the next one is made.
+		// (Not debug.FreeOSMemory: re-faulting 8 GB costs ~15 s of system time per writer.)
 		runtime.GC()
-		debug.FreeOSMemory()
 	}
 }
 
@@ -527,8 +526,10 @@ func (g *c05Gen) generate(thorough bool) {
 		one := g.sig(0x0201)
 		g.buildCase("single", format, 1, [][64]byte{one}, 0, 10)
 		g.buildCase("same-signature-repeated", format, 2, [][64]byte{one, one, one, one, one}, 40, 10)
-		a, b := g.sig(0xffff), g.sig(0xffff)
-		g.buildCase("pair-one-prefix", format, 0, [][64]byte{a, b, g.sig(0x0000)}, 1, 10)
+		if format == "v1" { // (v2: the `shapes` case has the same populations; each v2 writer reserves 8 GB of capacity)
+			a, b := g.sig(0xffff), g.sig(0xffff)
+			g.buildCase("pair-one-prefix", format, 0, [][64]byte{a, b, g.sig(0x0000)}, 1, 10)
+		}
 	}
 	for _, format := range []string{"v2", "v1"} {
 		// metadata of every shape the header can hold (v2: lengths 0..255, the 256-byte key / value is refused by
